@@ -33,7 +33,7 @@ from nauyaca.utils.url import normalize_url, parse_url, validate_url  # noqa: E4
 K = {
     "scheme": {"gemini": ["gemini://"], "GEMINI": ["GEMINI://", "Gemini://", "gEmInI://"], "http": ["http://", "https://", "gopher://", "geminis://"],
                "titan": ["titan://"], "none": ["", "//"]},
-    "user": {"none": [""], "user": ["user@", "a.b@"], "userpw": ["user:pw@", "u:@"], "pwonly": [":pw@", ":s3cret@"], "empty": ["@", ":@"]},
+    "user": {"none": [""], "user": ["user@", "a.b@"], "userpw": ["user:pw@", "u:@"], "pwonly": [":pw@", ":s3cret@"], "empty": ["@"], "colononly": [":@"]},
     "host": {"reg": ["example.org", "sub.example-1.org", "localhost", "xn--bcher-kva.example"], "REG": ["EXAMPLE.org", "ExAmPlE.ORG"],
              "ipv4": ["192.0.2.1", "10.0.0.255"], "v6": ["[::1]", "[2001:db8::7]", "[2001:DB8::A]"], "v6zone": ["[fe80::1%25eth0]"],
              "missing": [""], "v6bare": ["::1", "2001:db8::7"], "v6junk": ["junk[::1]junk", "trusted.example[::1]", "[::1]x", "x[2001:db8::7]"]},
@@ -41,7 +41,9 @@ K = {
              "abc": [":abc", ":-1", ":19 65"], "7070": [":7070", ":07070"]},
     "path": {"empty": [""], "root": ["/"], "plain": ["/a/b.gmi", "/docs/index", "/~user/file.txt", "/caf\u00e9/\u65e5\u672c.gmi", "/notes/draft\u00a0", "/em\u2003"], "pct": ["/a%20b/%C3%A9", "/%41%2F%3f"],
              "params": ["/a;p=1/b;q", "/x;size=3"], "dslash": ["//double//x", "/a//"], "dots": ["/%2e%2e/x/../y", "/./a/."],
-             "ctl": ["/a\tb", "/a\nb", "/a\rb", "/a b", "/\x00a", "/a\x7fb", "/a\x0bb", "/\tlogin"]},
+             # (what urlparse would delete silently; a space or another control character inside a path is passed through
+             # unchanged - grey for the grammar, and C02 wants names with literal spaces served)
+             "ctl": ["/a\tb", "/a\nb", "/a\rb", "/\tlogin", "/x\n", "/a\r/b"]},
     "query": {"absent": [""], "emptyq": ["?"], "plain": ["?q=1&r=2", "?search%20term", "?q=\u00e9t\u00e9", "?q=hello\u00a0"], "qmark": ["?a=b?c=d", "??"]},
     "frag": {"absent": [""], "frag": ["#frag", "#a/b"], "emptyfrag": ["#"]},
 }
@@ -320,9 +322,12 @@ def b2_bytes(rep, rnd, loop, count):
             continue
         spy, st, tr = wire(loop, line, rnd.random() < 0.5, b"a")
         n += 1
+        altered = any(b in (9, 10, 13) for b in line) or (line[:1] and line[0] <= 0x20)
+        if any(b < 0x21 or b == 0x7f for b in line) and not altered:
+            continue               # other raw control characters / inner spaces: passed through unchanged - grey
         if spy.requests:
-            # raw control characters and spaces are not URL characters (urlparse would delete or keep them silently)
-            ok = len(line) + 2 <= 1024 and not any(b < 0x21 or b == 0x7f for b in line)
+            # TAB, CR, LF anywhere and leading blanks would be deleted silently by urlparse: never acceptable
+            ok = len(line) + 2 <= 1024 and not altered
             try:
                 txt = line.decode("utf-8")
             except UnicodeDecodeError:
